@@ -40,7 +40,7 @@ def cases(tier, seed, info):
         for rep in range(reps):
             for chunk in range(6):
                 out.append(dict(kind='shipped', file=name, chunk=chunk, nchunks=6, seed=seed * 31 + rep * 7 + chunk))
-    n = 24 if tier == 'quick' else 3000
+    n = 64 if tier == 'quick' else 3000
     for k in range(n):
         out.append(dict(kind='synthetic', seed=seed * 8887 + k))
     info['shipped_runs'] = 12 * reps
